@@ -11,6 +11,8 @@ pub struct Parser<'a> {
     lexer: Lexer<'a>,
     current: Token,
     previous: Token,
+    /// Current nesting depth of recursive grammar rules (see `enter_nested`).
+    nesting_depth: usize,
 }
 
 impl<'a> Parser<'a> {
@@ -24,10 +26,25 @@ impl<'a> Parser<'a> {
             span: current.span,
         };
         Self {
+            nesting_depth: 0,
             lexer,
             current,
             previous,
         }
+    }
+
+    /// Maximum nesting depth of recursive grammar rules.
+    const MAX_NESTING_DEPTH: usize = 128;
+
+    /// Enters a recursive grammar rule. Recursive descent uses one chain of stack
+    /// frames per nesting level, so input that nests too deeply is rejected with an
+    /// error instead of overflowing the stack.
+    fn enter_nested(&mut self) -> Result<()> {
+        if self.nesting_depth >= Self::MAX_NESTING_DEPTH {
+            return Err(self.error("Query nesting is too deep"));
+        }
+        self.nesting_depth += 1;
+        Ok(())
     }
 
     /// Parses the query into a statement.
@@ -751,6 +768,13 @@ impl<'a> Parser<'a> {
     }
 
     fn parse_not_expression(&mut self) -> Result<Expression> {
+        self.enter_nested()?;
+        let result = self.parse_not_expression_inner();
+        self.nesting_depth -= 1;
+        result
+    }
+
+    fn parse_not_expression_inner(&mut self) -> Result<Expression> {
         if self.current.kind == TokenKind::Not {
             self.advance();
             let operand = self.parse_not_expression()?;
@@ -886,6 +910,13 @@ impl<'a> Parser<'a> {
     }
 
     fn parse_power_expression(&mut self) -> Result<Expression> {
+        self.enter_nested()?;
+        let result = self.parse_power_expression_inner();
+        self.nesting_depth -= 1;
+        result
+    }
+
+    fn parse_power_expression_inner(&mut self) -> Result<Expression> {
         let mut left = self.parse_unary_expression()?;
 
         if self.current.kind == TokenKind::Caret {
@@ -902,6 +933,13 @@ impl<'a> Parser<'a> {
     }
 
     fn parse_unary_expression(&mut self) -> Result<Expression> {
+        self.enter_nested()?;
+        let result = self.parse_unary_expression_inner();
+        self.nesting_depth -= 1;
+        result
+    }
+
+    fn parse_unary_expression_inner(&mut self) -> Result<Expression> {
         match self.current.kind {
             TokenKind::Minus => {
                 self.advance();
